@@ -384,6 +384,26 @@ public:
 
         const size_type     theTotalSize = size() + theCount;
 
+        if (theCount != 0 && m_size != 0 &&
+            &theData >= m_data && &theData < m_data + m_size)
+        {
+            // theData is one of our own elements: build the result
+            // in a temporary, while the element is still in place.
+            const size_type     theDistance = local_distance(begin(), thePosition);
+
+            ThisType    theTemp(*m_memoryManager, theTotalSize);
+
+            theTemp.insert(theTemp.end(), begin(), begin() + theDistance);
+            theTemp.insert(theTemp.end(), theCount, theData);
+            theTemp.insert(theTemp.end(), begin() + theDistance, end());
+
+            swap(theTemp);
+
+            invariants();
+
+            return;
+        }
+
         // Needs to be optimized
         if (thePosition == end())
         {
@@ -480,21 +500,14 @@ public:
             iterator            thePosition,
             const value_type&   theData)
     {
-        if (m_allocation > m_size)
-        {
-            insert(thePosition, 1, theData);
+        // The block may move even when there is spare capacity
+        // (theData may be one of our own elements).
+        const size_type     theDistance =
+            local_distance(begin(), thePosition);
 
-            return thePosition;
-        }
-        else
-        {
-            const size_type     theDistance =
-                local_distance(begin(), thePosition);
+        insert(thePosition, 1, theData);
 
-            insert(thePosition, 1, theData);
-
-            return begin() + theDistance;
-        }
+        return begin() + theDistance;
     }
 
     void
